@@ -110,23 +110,7 @@ NameOf(val) ==
       [] k = "RangeListRef" -> "DW_AT_ranges"
 
 -----------------------------------------------------------------------------
-(* calls; a script is a sequence of call records; Apply replays it on D       *)
-StrOf(val) == IF val.k = "StringRef" THEN <<val.s>> ELSE <<>>
-LStrOf(val) == IF val.k = "LineStringRef" THEN <<val.s>> ELSE <<>>
-ApplyCall(D, k) ==
-    LET U == D.units[k.u] IN
-    CASE k.op = "add" -> [D EXCEPT !.units[k.u] = AddNew(U, k.p, k.tag)]
-      [] k.op = "reserve" -> [D EXCEPT !.units[k.u] = Reserve(U)]
-      [] k.op = "add_reserved" -> [D EXCEPT !.units[k.u] = AddReserved(U, k.e, k.p, k.tag)]
-      [] k.op = "set" -> [D EXCEPT !.units[k.u] = SetAttr(U, k.e, k.name, k.val),
-                                   !.strs = @ \o StrOf(k.val), !.lstrs = @ \o LStrOf(k.val)]
-      [] k.op = "delete" -> [D EXCEPT !.units[k.u] = DeleteAttr(U, k.e, k.name)]
-      [] k.op = "sibling" -> [D EXCEPT !.units[k.u] = SetSibling(U, k.e, k.v)]
-      [] k.op = "delete_child" -> [D EXCEPT !.units[k.u] = DeleteChild(U, k.p, k.e)]
-RECURSIVE Apply(_, _, _)
-Apply(D, calls, i) == IF i > Len(calls) THEN D ELSE Apply(ApplyCall(D, calls[i]), calls, i + 1)
-Start(encs) == [units |-> [u \in 1..Len(encs) |-> NewUnit(encs[u])], strs |-> <<>>, lstrs |-> <<>>]
-
+(* calls / scripts: ApplyCall, Apply, Start are defined in UnitWriter.tla      *)
 Enc(v, w, a) == [version |-> v, word |-> w, asz |-> a]
 SetCall(u, e, name, val) == [op |-> "set", u |-> u, e |-> e, name |-> name, val |-> val]
 AddCall(u, p, tag) == [op |-> "add", u |-> u, p |-> p, tag |-> tag]
@@ -284,10 +268,6 @@ LayoutLemma(D, res) ==
     res.ok => /\ Len(res.info) = res.units[Len(res.units)].off + res.units[Len(res.units)].len
               /\ \A u \in DOMAIN res.units : \A i \in 2..Len(res.units[u].entries) :
                     res.units[u].entries[i - 1].off < res.units[u].entries[i].off
-
-(* the writer removes DW_AT_stmt_list from a root without line program and  *)
-(* refuses LineProgramRef elsewhere                                         *)
-Normalise(D) == [D EXCEPT !.units = [u \in DOMAIN D.units |-> DeleteAttr(D.units[u], 1, "DW_AT_stmt_list")]]
 
 (* a reference to an id that has no slot in the unit: expected to be an error *)
 Beyond(D) == \E u \in 1..Len(D.units) : \E e \in 1..Len(D.units[u].ents) : \E a \in Range(D.units[u].ents[e].attrs) :
